@@ -199,6 +199,11 @@ class JokerSamples:
                 f"Units of '{key}' must be convertable to " f"{expected_unit}"
             )
 
+        if key in ("ln_prior", "ln_likelihood", "ln_posterior"):
+            # plain numbers: a scaled dimensionless unit (d2 / yr2, percent) is not
+            # carried along by the file readers of the samplers
+            val = val.to(u.one)
+
         if isinstance(val.unit, u.function.FunctionUnitBase):
             # a logarithmic quantity (dex, mag) counts as convertible, but the
             # column arithmetic here (products with angles, means, scalings by a
